@@ -139,7 +139,7 @@ def abi_case_term(j):
 
 def abi_corr(which):
     def corr(ctx, cid, tier, seed):
-        n = 3000 if tier == 'quick' else 120000
+        n = 3000 if tier == "quick" else 60000
         cases = []
         # corpus first
         cdir = os.path.join(ctx.ROOT, 'corpus', 'abi')
@@ -387,12 +387,12 @@ def _govmon(tr, cid):
     return govmon.monitor(tr, cid)
 
 
-register('C11', corr=trace_corr('gov', 'govcases', (48, 1500), lambda op, code: op['op'] in ('execute', 'execProposal', 'callback', 'deliver') and code & 9, GOV_RULE, gov_nontrivial, monitor=_govmon),
+register('C11', corr=trace_corr('gov', 'govcases', (48, 900), lambda op, code: op['op'] in ('execute', 'execProposal', 'callback', 'deliver') and code & 9, GOV_RULE, gov_nontrivial, monitor=_govmon),
          assumptions=['callbacks run to completion (gas metering is not modelled)', 'now + minimum delay below 2^64 (u64 addition)',
                       'the external target contract is abstracted to an outcome (success with return data / failure)'])
-register('C12', corr=trace_corr('gov', 'govcases', (48, 1500), lambda op, code: op['op'] in ('execute', 'execOperator', 'transferOp', 'withdraw', 'callback', 'gwApprove') and code & 25, GOV_RULE, gov_nontrivial, monitor=_govmon),
+register('C12', corr=trace_corr('gov', 'govcases', (48, 900), lambda op, code: op['op'] in ('execute', 'execOperator', 'transferOp', 'withdraw', 'callback', 'gwApprove') and code & 25, GOV_RULE, gov_nontrivial, monitor=_govmon),
          assumptions=['callbacks run to completion (gas metering is not modelled)', 'collision freedom of keccak only where C02 states it'])
-register('C16', corr=trace_corr('gov', 'govcases', (48, 1500), lambda op, code: op['op'] in ('callback', 'withdrawRefund', 'execProposal', 'execOperator') and code & 25, GOV_RULE, gov_nontrivial, monitor=_govmon),
+register('C16', corr=trace_corr('gov', 'govcases', (48, 900), lambda op, code: op['op'] in ('callback', 'withdrawRefund', 'execProposal', 'execOperator') and code & 25, GOV_RULE, gov_nontrivial, monitor=_govmon),
          assumptions=['whether the contract still holds the credited funds when a proposal has meanwhile moved them is outside the property'])
 
 
@@ -420,7 +420,7 @@ def its_rel(ops, bits):
     return lambda op, code: (ops is None or op['op'] in ops) and code & bits
 
 
-ITS_N = (50, 1200)
+ITS_N = (50, 600)
 register('C04', corr=trace_corr('its', 'itscases', ITS_N, its_rel({'execute', 'gwApprove', 'init'}, 27), ITS_RULE, its_nontrivial, monitor=_itsmon),
          assumptions=['ESDT-level transfer rules (frozen accounts, non-payable recipients) are outside the model', 'zero-amount inbound transfers are not generated'])
 register('C05', corr=trace_corr('its', 'itscases', ITS_N, its_rel({'transfer', 'callContract'}, 31), ITS_RULE, its_nontrivial, monitor=_itsmon),
